@@ -156,6 +156,7 @@ Definition initmmap (ok : os_ok) (ps fsz : Z) (ss : list slot) : Z * list slot :
    Windows that cannot follow a growth: the file has grown already; iwp_ftruncate(old_size) gives the space back, then
    truncfail.  Windows that cannot follow a shrink: the file has not been cut yet (initmmap comes first); truncfail. *)
 Definition truncate_lw (ok : os_ok) (st : exf) (size : Z) : Z * exf :=
+  if size <? 0 then (EXF_E_OOB, st) else          (* a negative size is refused (it used to round to 0 and empty the file) *)
   let size := IW_ROUNDUP (uw 64 size) (psize st) in
   let old := fsize st in
   if old =? size then (0, st)
@@ -174,7 +175,8 @@ Definition truncate_lw (ok : os_ok) (st : exf) (size : Z) : Z * exf :=
 
 (* _exfile_ensure_size_lw *)
 Definition ensure_size_lw (q : quirks) (ok : os_ok) (st : exf) (sz : Z) : Z * exf :=
-  if fsize st >=? uw 64 sz then (0, st)
+  if sz <? 0 then (EXF_E_OOB, st)                 (* -1 is the "dispose" call of the policies: it used to empty the file *)
+  else if fsize st >=? uw 64 sz then (0, st)
   else
     let '(nsz, pol') := policy_call q (psize st) (pol st) sz (fsize st) in
     let st1 := set_pol st pol' in
@@ -318,6 +320,15 @@ Definition exfile_write (q : quirks) (ok : os_ok) (st : exf) (off : Z) (data : l
       | Some (f', ss') => (0, siz, set_fs st1 f' ss')
       | None => (EXF_CRASH, 0, st1)
       end.
+
+(* on a handle opened read-only (omode without IWFS_OWRITE): _exfile_write and _exfile_copy answer IW_ERROR_READONLY whether the
+   range is served by a window (a PROT_READ mapping) or by the file; rc, *sp *)
+Definition exfile_write_ro (st : exf) (off : Z) (data : list Z) : Z * Z :=
+  let end_ := sw 64 (off + zlen data) in
+  if (off <? 0) || (end_ <? 0) then (EXF_E_OOB, 0)
+  else if negb (maxoff st =? 0) && (uw 64 (off + zlen data) >? maxoff st) then (EXF_E_MAXOFF, 0)
+  else (EXF_E_READONLY, 0).
+Definition exfile_copy_ro (st : exf) (off siz noff : Z) : Z := EXF_E_READONLY.
 
 (* _exfile_read: rc, *sp, bytes *)
 Definition exfile_read (st : exf) (off siz : Z) : Z * Z * list Z :=
